@@ -29,6 +29,9 @@ func (u *Unit) evalCall(st *State, e *ast.CallExpr) Term {
 	// resolve static callee
 	callee, recvExpr := u.staticCallee(e)
 	if callee != nil {
+		if impl := u.devirtualize(callee); impl != nil {
+			callee = impl
+		}
 		return u.callFunc(st, e, callee, recvExpr)
 	}
 	// dynamic call through a function value
@@ -61,6 +64,51 @@ func (u *Unit) staticCallee(e *ast.CallExpr) (*types.Func, ast.Expr) {
 		}
 	}
 	return nil, nil
+}
+
+// devirtualize: a method of an interface type declared in the repository that has exactly one implementing named type in
+// its own package is resolved to that implementation (closed-world assumption, noted).
+func (u *Unit) devirtualize(callee *types.Func) *types.Func {
+	sig := callee.Type().(*types.Signature)
+	if sig.Recv() == nil || callee.Pkg() == nil || !u.eng.isRepoPkg(callee.Pkg().Path()) {
+		return nil
+	}
+	it, ok := sig.Recv().Type().Underlying().(*types.Interface)
+	if !ok {
+		return nil
+	}
+	named, ok := sig.Recv().Type().(*types.Named)
+	if !ok {
+		return nil
+	}
+	var found *types.Func
+	n := 0
+	scope := callee.Pkg().Scope()
+	for _, name := range scope.Names() {
+		tn, ok := scope.Lookup(name).(*types.TypeName)
+		if !ok || tn.IsAlias() {
+			continue
+		}
+		T := tn.Type()
+		if types.IsInterface(T) {
+			continue
+		}
+		for _, cand := range []types.Type{T, types.NewPointer(T)} {
+			if types.Implements(cand, it) {
+				obj, _, _ := types.LookupFieldOrMethod(cand, true, callee.Pkg(), callee.Name())
+				if f, ok := obj.(*types.Func); ok {
+					found = f
+					n++
+				}
+				break
+			}
+		}
+	}
+	if n == 1 {
+		u.c.note("interface method %s.%s resolved to its only implementation %s (closed-world assumption)", named.Obj().Name(), callee.Name(), found.FullName())
+		return found
+	}
+	return nil
 }
 
 func (u *Unit) evalConversion(st *State, e *ast.CallExpr, to types.Type) Term {
@@ -684,6 +732,7 @@ func (u *Unit) assumeRangeIf(st *State, cond string, t Term) {
 // ---------- function calls ----------
 
 type callArgs struct {
+	isig    *types.Signature // instantiated signature (generic callees)
 	recv    *Term
 	recvExp ast.Expr
 	args    []Term
@@ -845,6 +894,9 @@ func (u *Unit) receiverBase(st *State, recvExpr ast.Expr, callee *types.Func) (*
 
 func (u *Unit) callFunc(st *State, e *ast.CallExpr, callee *types.Func, recvExpr ast.Expr) Term {
 	sig := callee.Type().(*types.Signature)
+	if isig, ok := u.typeOf(e.Fun).(*types.Signature); ok && sig.TypeParams() != nil && sig.TypeParams().Len() > 0 {
+		sig = isig // instantiated signature of a generic function
+	}
 	// promoted method: rewrite receiver expression to include the embedded path
 	if recvExpr != nil {
 		if se, ok := ast.Unparen(e.Fun).(*ast.SelectorExpr); ok {
@@ -854,6 +906,7 @@ func (u *Unit) callFunc(st *State, e *ast.CallExpr, callee *types.Func, recvExpr
 		}
 	}
 	ca, after := u.evalArgs(st, e, sig, recvExpr, callee)
+	ca.isig = sig
 	res := u.applyCallee(st, e, callee, ca)
 	for _, f := range after {
 		f()
@@ -994,6 +1047,13 @@ func (u *Unit) applyCallee(st *State, e *ast.CallExpr, callee *types.Func, ca ca
 	full := callee.FullName()
 	if u.eng.isPureExternal(callee) {
 		return resultTerm(u.freshResults(st, sig, "ext"))
+	}
+	if callee.Pkg() != nil && callee.Pkg() == u.pkg.Types {
+		for _, g := range sortedKeys(st.ghost) {
+			if strings.HasPrefix(g, "held:") && st.ghost[g] != "0" {
+				u.emit(st, "lock", u.safetyName("lock-call", strings.TrimPrefix(g, "held:")+"@"+callee.Name()), "no call of an uncontracted function of this package while "+strings.TrimPrefix(g, "held:")+" is held (it could re-acquire the lock)", e.Pos(), eq(st.ghost[g], "0"))
+			}
+		}
 	}
 	u.unsupportedf(e.Pos(), "call of uncontracted %s: heaps havoced, results arbitrary", full)
 	u.havocAllHeaps(st)
